@@ -589,7 +589,7 @@ pub fn run_probe_session(seed: u64, run: u64, prop: &str) -> Acc {
     let mut games: Vec<workload::Game> = vec![];
     let n = 1 + rng.below(4);
     for _ in 0..n {
-        let g = match rng.below(6) {
+        let g = match rng.below(8) {
             0 => workload::Game { start: base.start.clone(), moves: vec![], source: "" },
             1 => {
                 let k = rng.below(base.moves.len() as u64 + 1) as usize;
@@ -603,6 +603,58 @@ pub fn run_probe_session(seed: u64, run: u64, prop: &str) -> Acc {
                 workload::Game { start, moves, source: "" }
             }
             4 => workload::Game { start: workload::gen_position(&mut rng), moves: vec![], source: "" },
+            5 | 6 => {
+                // the SAME move list from a DIFFERENT start position: remove a bystander piece
+                // (or flip a castling right) so that every move of the list stays legal
+                let mut found = None;
+                for _ in 0..12 {
+                    let mut s2 = base.start.clone();
+                    if rng.chance(1, 4) && s2.castle.iter().any(|c| *c) {
+                        let i = rng.below(4) as usize;
+                        s2.castle[i] = false;
+                    } else {
+                        let sq = rng.below(64) as usize;
+                        if s2.sq[sq] == 0 || r::kind(s2.sq[sq]) == r::KING {
+                            continue;
+                        }
+                        s2.sq[sq] = 0;
+                        // rights need their rook
+                        if !s2.is_legal_position() {
+                            for i in 0..4 {
+                                let mut t = s2.clone();
+                                t.castle[i] = false;
+                                if t.is_legal_position() {
+                                    s2 = t;
+                                    break;
+                                }
+                            }
+                        }
+                    }
+                    if s2 == base.start || !s2.is_legal_position() {
+                        continue;
+                    }
+                    let mut p = s2.clone();
+                    let mut ok = true;
+                    for m in &base.moves {
+                        if !p.legal_moves().contains(m) {
+                            ok = false;
+                            break;
+                        }
+                        p = p.apply(*m);
+                    }
+                    if ok {
+                        found = Some(workload::Game { start: s2, moves: base.moves.clone(), source: "" });
+                        break;
+                    }
+                }
+                match found {
+                    Some(g) => {
+                        acc.count("session_same_moves_from_a_different_start");
+                        g
+                    }
+                    None => base.clone(),
+                }
+            }
             _ => workload::gen_game(&mut rng, 30),
         };
         if rng.chance(1, 3) {
